@@ -32,6 +32,10 @@ type SpecEnv struct {
 	pkg      *types.Package
 	scopePos token.Pos
 	where    string
+	// map-range loops: keys already iterated / presence at loop start
+	visited    *Term
+	visitedKey types.Type
+	iterStart  *Term
 }
 
 type specError string
@@ -218,6 +222,12 @@ func (env *SpecEnv) ident(name string) SVal {
 		if v, ok := env.local(name); ok {
 			return v
 		}
+	}
+	if gl, ok := fv.ghostLocals[name]; ok {
+		if v, ok := env.st.globals["gl:"+name]; ok {
+			return SVal{T: v, Typ: gl.typ, Math: gl.math}
+		}
+		return SVal{T: gl.init, Typ: gl.typ, Math: gl.math}
 	}
 	if g, ok := fv.eng.ghosts[name]; ok {
 		return fv.ghostSVal(env.st, g)
@@ -652,6 +662,15 @@ func (env *SpecEnv) call(e *SExpr) SVal {
 			cnd := fv.evalBool(env, args[0])
 			a, b := env.unify(env.eval(args[1]), env.eval(args[2]))
 			return SVal{T: Ite(cnd, a.T, b.T), Typ: a.Typ, Math: a.Math}
+		case "visited", "atstart":
+			if env.visited == nil {
+				env.fail("visited() outside a map-range loop invariant")
+			}
+			k := env.coerce(env.eval(args[0]), env.visitedKey)
+			if fe.Name == "atstart" {
+				return SVal{T: Select(env.iterStart, k.T), Typ: types.Typ[types.Bool]}
+			}
+			return SVal{T: Select(env.visited, k.T), Typ: types.Typ[types.Bool]}
 		case "allocated":
 			x := env.eval(args[0])
 			return SVal{T: And(ILe(IntLit(0), x.T), ILt(x.T, env.st.nextRef)), Typ: types.Typ[types.Bool]}
@@ -841,6 +860,30 @@ func (env *SpecEnv) applyGoFunc(f SVal, args []*SExpr) SVal {
 
 // ---------------------------------------------------------------------------
 // ghost state
+
+type ghostLocal struct {
+	typ  types.Type
+	math bool
+	init *Term
+}
+
+func (fv *FuncVer) declareGhostLocals() {
+	fv.ghostLocals = map[string]*ghostLocal{}
+	for _, cl := range fv.block.ClausesOf("ghostvar") {
+		name, typ := splitWord(cl.Text)
+		g := &Block{Kind: "ghost", Name: name, Result: typ}
+		fv.eng.blockPkg[g] = fv.eng.pkgOfBlock(fv.block)
+		s, t, math := fv.ghostSort(g)
+		gl := &ghostLocal{typ: t, math: math}
+		if math {
+			mt := types.Unalias(t).Underlying().(*types.Map)
+			gl.init = MkDT(s, ConstArray(s.DT.Fields[0].Sort, False), ConstArray(s.DT.Fields[1].Sort, fv.ctx.Zero(mt.Elem())))
+		} else {
+			gl.init = fv.ctx.Zero(t)
+		}
+		fv.ghostLocals[name] = gl
+	}
+}
 
 func (fv *FuncVer) ghostSort(g *Block) (*Sort, types.Type, bool) {
 	t := fv.eng.parseType(g.Result, fv.eng.pkgOfBlock(g))
